@@ -506,3 +506,11 @@ def x9(ctx):
 
 
 RULES.append(x9)
+
+
+@rule("X10", doc="extraction succeeds in assertion builds too: the assertions under `if CHECKS` on its path are the reviewed ones (C08.GA)")
+def x10(ctx):
+    C.ghost_census(ctx, ctx.lib())
+
+
+RULES.append(x10)
